@@ -263,6 +263,10 @@ func succOn(ifi *ssa.If, pol bool) *ssa.BasicBlock {
 
 // leaderTests: Ifs in fn whose condition is a call of a leader predicate (a method whose result compares the
 // field assigned from SoftState.Lead with the local node id).
+// leaderOnTrue tells, per leader test, whether the leader side is the true branch (a test written inline as
+// `lead != self` has the leader on its false branch).
+var leaderOnTrue = map[*ssa.If]bool{}
+
 func leaderTests(c *Ctx, rl *readyLoop) (tests []*ssa.If, leadField *types.Var, leadStore *ssa.Store) {
 	// the field assigned from rd.SoftState.Lead
 	eachInstr(rl.fn, func(i ssa.Instruction) {
@@ -322,9 +326,33 @@ func leaderTests(c *Ctx, rl *readyLoop) (tests []*ssa.If, leadField *types.Var, 
 		}
 		return (readsLead(b.X) && readsNode(b.Y)) || (readsLead(b.Y) && readsNode(b.X))
 	}
+	readsLeadV := func(v ssa.Value) bool {
+		for _, o := range origins(v, originOpt{throughCalls: 3}) {
+			if fieldOfValue(o) == leadField {
+				return true
+			}
+		}
+		return false
+	}
+	readsNodeV := func(v ssa.Value) bool {
+		for _, o := range origins(v, originOpt{throughCalls: 3}) {
+			if f := fieldOfValue(o); f != nil && strings.Contains(strings.ToLower(f.Name()), "nodeid") {
+				return true
+			}
+		}
+		return false
+	}
 	for _, ifi := range allIfs(rl.fn) {
 		if cl, ok := ifi.Cond.(*ssa.Call); ok && isPred(cl.Call.StaticCallee()) {
 			tests = append(tests, ifi)
+			leaderOnTrue[ifi] = true
+		}
+		// the predicate written inline: lead == self / lead != self
+		if b, ok := ifi.Cond.(*ssa.BinOp); ok && (b.Op == token.EQL || b.Op == token.NEQ) {
+			if (readsLeadV(b.X) && readsNodeV(b.Y)) || (readsLeadV(b.Y) && readsNodeV(b.X)) {
+				tests = append(tests, ifi)
+				leaderOnTrue[ifi] = b.Op == token.EQL
+			}
 		}
 	}
 	return
@@ -420,11 +448,11 @@ func raftLoopRules(c *Ctx, r *Report, ids map[string]string) *readyLoop {
 					// after persist: fine; note whether guarded
 					g := false
 					for _, t := range tests {
-						if guardedBy(s.Block(), t, false) {
+						if guardedBy(s.Block(), t, !leaderOnTrue[t]) {
 							g = true
 							followerAfter = true
 						}
-						if guardedBy(s.Block(), t, true) {
+						if guardedBy(s.Block(), t, leaderOnTrue[t]) {
 							g = true
 						}
 					}
@@ -436,7 +464,7 @@ func raftLoopRules(c *Ctx, r *Report, ids map[string]string) *readyLoop {
 				}
 				g := false
 				for _, t := range tests {
-					if guardedBy(s.Block(), t, true) {
+					if guardedBy(s.Block(), t, leaderOnTrue[t]) {
 						g = true
 						leaderBefore = true
 					}
@@ -501,6 +529,7 @@ func raftLoopRules(c *Ctx, r *Report, ids map[string]string) *readyLoop {
 // ---- C03 -------------------------------------------------------------------------------
 
 func checkC03(c *Ctx, r *Report, tier string) {
+	round5(c, r, "C03")
 	r.Rule("C03.R1", "persist dominates apply, acknowledgement and Advance: one plain persist call per Ready taking HardState, Entries and Snapshot of the same Ready; it dominates every apply site and Advance; its error branch reaches none of them", 4)
 	r.Rule("C03.R2", "acknowledgement only from the apply tree: every function that calls Notificator.Notify is reachable from an apply root and from no RPC root / background loop", 8)
 	r.Rule("C03.R3", "a persist call that returns nil has flushed: in every batch function each return after the batch is created returns Flush()'s value or a tested non-nil error; Set/Delete results are never discarded; Cancel is deferred; the Badger options keep SyncWrites on", 8)
@@ -1112,6 +1141,7 @@ func condReadsStorage(v ssa.Value, depth int) bool {
 // ---- C05 -------------------------------------------------------------------------------
 
 func checkC05(c *Ctx, r *Report, tier string) {
+	round5(c, r, "C05")
 	r.Rule("C05.R1", "send discipline (etcd/raft host contract): every send of rd.Messages is dominated by the persist call or guarded by the leader test; messages are never dropped; the leader id is assigned once per Ready before both tests", 3)
 	r.Rule("C05.R2", "persist is one plain call on the same Ready, dominates every apply site, and its failure is fatal", 4)
 	r.Rule("C05.R3", "Advance exactly once per Ready, after every apply site, on every path back to the select", 1)
